@@ -64,6 +64,10 @@ def gen(S, tier):
         "bad_markup": w.chance(0.12), "multiline_string": w.chance(0.3), "multiline_call": w.chance(0.3),
         "no_trailing_lines": w.chance(0.2), "odd_separators": w.chance(0.15),
         "leading_continuation": w.chance(0.05),
+        # the failing line itself: explicit line joining, or a comment / second statement behind it
+        "raise_variant": w.weighted([(None, 6), ("continuation", 1), ("backslash_comment", 1.5), ("markup_comment", 1),
+                                     ("formfeed_comment", 0.7), ("tab_comment", 0.5), ("semicolon", 0.5)]),
+        "call_suffix": w.weighted([(None, 8), ("backslash_comment", 1), ("markup_comment", 0.5), ("formfeed_comment", 0.5)]),
     }
     if c.chance(0.12):
         # a failure inside a real file of the standard library: the snippet is checked against the file on disk
@@ -84,6 +88,7 @@ def gen(S, tier):
         "same_trace": c.chance(0.5), "verbosity2": c.pick([1, 2, 4]),
         # another exception rendered (on its own IO) before the one under test
         "prior_exc": None,
+        "io_kind": c.weighted([("sim", 6), ("buffered", 1)]),
     }
     if sc["ignore"] in ("some", "all") and c.chance(0.5):
         # the same trace object, the same pattern, the other side of the debug boundary
@@ -97,6 +102,13 @@ def gen(S, tier):
             sc["prior_exc"] = dict(sc["prior_exc"], msg=first, cause=None, context=None)
             sc["exc"] = dict(sc["exc"], msg=second)
         sc["prior_simple"] = w.chance(0.5)
+    if w.chance(0.12):
+        # earlier output on the SAME I/O left a style tag open (legal: the style just stays on); the
+        # message then closes that style or another one
+        t = w.pick(["info", "comment", "b", "question", "fg=red"])
+        sc["pre_output"] = "<%s>left open by earlier output" % t
+        if w.chance(0.7):
+            sc["exc"] = dict(sc["exc"], msg=w.pick(["x </%s> y", "closing </%s> only", "<b>bold</%s>"]) % w.pick(["info", "comment", "error", "b", ""]))
     return sc
 
 
@@ -146,6 +158,8 @@ def simplify(sc):
         yield dict(sc, ignore2=None)
     if sc.get("prior_exc"):
         yield dict(sc, prior_exc=None)
+    if sc.get("pre_output"):
+        yield dict(sc, pre_output=None)
     for k, v in (("recursion", 0), ("two_modules", False), ("ignore", None), ("utf8", True), ("ansi", False)):
         if sc[k] != v:
             yield dict(sc, **{k: v})
@@ -181,7 +195,9 @@ def _strip_tags(s):
 
 
 def _norm(s):
-    return " ".join(_strip_tags(s).split())
+    # blanks, tabs and line ends are layout (the report re-indents the message); anything else,
+    # including form feeds and the other characters str.splitlines() knows, is text
+    return re.sub(r"[ \t\n]+", " ", _strip_tags(s)).strip(" ")
 
 
 def execute(sc):
@@ -371,6 +387,9 @@ def _run(sc, res, log, store, r):
         pfm = AnsiFormatter() if sc["ansi"] else PlainFormatter()
         pio = IO(Input(SimInputStream(log, [])), Output(SimOutputStream("pout", log, ansi=sc["ansi"]), pfm),
                  Output(SimOutputStream("perr", log, ansi=sc["ansi"]), pfm))
+        if sc.get("io_kind") == "buffered":
+            from clikit.io import BufferedIO
+            pio = BufferedIO()
         try:
             ExceptionTrace(pexc).render(pio, sc.get("prior_simple", False))
         except Exception as e_:
@@ -381,6 +400,13 @@ def _run(sc, res, log, store, r):
     err = SimOutputStream("err", log, ansi=sc["ansi"], utf8=sc["utf8"])
     fm = AnsiFormatter() if sc["ansi"] else PlainFormatter()
     io = IO(Input(SimInputStream(log, [])), Output(out, fm), Output(err, fm))
+    if sc.get("io_kind") == "buffered":
+        # clikit's own BufferedIO with the formatter it builds for itself
+        from clikit.io import BufferedIO
+        io = BufferedIO(supports_utf8=sc["utf8"])
+        out.data = io.fetch_output
+        err.data = io.fetch_error
+        res.probe("buffered_io")
     io.set_verbosity(sc["verbosity"])
     if sc["verbosity"] == 4:
         res.probe("debug_verbosity")
@@ -394,6 +420,12 @@ def _run(sc, res, log, store, r):
         trace.ignore_files_in("^" + re.escape(PREFIX))
     if sc["simple"]:
         res.probe("simple_mode")
+    pre_len = 0
+    if sc.get("pre_output"):
+        io.write_line(sc["pre_output"])
+        pre_len = len(strip_ansi(out.data()))
+        res.probe("style_left_open_on_the_io_before")
+        res.fault("io_with_open_style")
     try:
         trace.render(io, sc["simple"])
     except Exception as e:
@@ -404,7 +436,7 @@ def _run(sc, res, log, store, r):
                     "render raised %s: %s (fault %s, verbosity %d, simple %r)" % (type(e).__name__, str(e)[:120], fault, sc["verbosity"], sc["simple"]))
         log.add("render_raised", type(e).__name__)
         return
-    text = strip_ansi(out.data())
+    text = strip_ansi(out.data())[pre_len:]
     if err.data():
         log.add("stderr", err.data()[:80])
     log.add("rendered", len(text))
